@@ -279,9 +279,16 @@ def do_two_sims(case, ob, site):
     K, kind = case['K'], case['sim']
     v1, v2 = Vars('first_'), Vars()
     from .. import spec
-    assume = [z3.Not(d) for d in spec.run(block, K, v2, reg_init='reset', mem_init='default').double_write]
+    shared = case.get('shared_map')
+    # 'shared_map': both simulators are given the SAME memory_value_map object (a testbench re-run): the second one starts from
+    # the contents the caller put there, whatever the first one wrote
+    contents = {m.name: {0: 1, (1 << m.addrwidth) - 1: 1 if m.bitwidth > 1 else 0} for m in simdrv.mems_of(block).values()
+                if not isinstance(m, pyrtl.RomBlock)} if shared else {}
+    minit = {m.name: sym.SymMem.from_dict(contents[m.name], 0, m.addrwidth, m.bitwidth) for m in simdrv.mems_of(block).values()
+             if m.name in contents} if shared else 'default'
+    assume = [z3.Not(d) for d in spec.run(block, K, v2, reg_init='reset', mem_init=minit).double_write]
     with sym_env([block]):
-        ref = run_sim(block, K, v2, kind='sim', reg_init='reset', mem_init='default', track='io', assumptions=assume)
+        ref = run_sim(block, K, v2, kind='sim', reg_init='reset', mem_init=minit, track='io', assumptions=assume)
 
     def ins(vv, t):
         return {w.name: SymInt.mk(vv.inp(w.name, t, w.bitwidth), False) for w in block.wirevector_subset(pyrtl.Input)}
@@ -290,15 +297,17 @@ def do_two_sims(case, ob, site):
         cls = pyrtl.Simulation if kind == 'sim' else pyrtl.FastSimulation
         # the first simulator runs on plain ints (all-ones inputs: every enable high, every word non-zero) and on the very
         # objects it created, so that whatever it leaves behind in shared state is really there
-        first = cls(block=block)
+        mvm = {m: dict(contents[m.name]) for m in simdrv.mems_of(block).values() if m.name in contents}
+        kw = {'memory_value_map': mvm} if shared else {}
+        first = cls(block=block, **kw)
         for t in range(K + 1):
             first.step({w.name: w.bitmask for w in block.wirevector_subset(pyrtl.Input)})
-        second = cls(block=block)
+        second = cls(block=block, **kw)
         # the second simulator's memories as it created them (an aliased default would already hold the first one's words)
         polluted = []
         for mid, m in simdrv.mems_of(block).items():
             store = second.memvalue.get(mid) if kind == 'sim' else second.mems.get(second._mem_varname(m))
-            if isinstance(store, dict) and store:
+            if isinstance(store, dict) and store != contents.get(m.name, {}):
                 polluted.append(m.name)
             if store is not None and not isinstance(store, dict) and not isinstance(m, pyrtl.RomBlock):
                 polluted.append(m.name + ' (shared object)')
@@ -314,7 +323,7 @@ def do_two_sims(case, ob, site):
             ob.prove('two-sims:no-exception(%s)' % type(p.exc).__name__, z3.Not(z3.And(*p.pc)) if p.pc else z3.BoolVal(False), assume, v2,
                      site=site + ':exception')
             continue
-        ob.fact('second-simulator-starts-with-empty-memories', not p.result['polluted'], site + ':memory-carried-over',
+        ob.fact('second-simulator-starts-from-the-contents-it-was-given', not p.result['polluted'], site + ':memory-carried-over',
                 detail=p.result['polluted'])
         for r in ref:
             if r.exc is not None:
@@ -732,12 +741,25 @@ def replay_two_sims(c, block, mv):
     cls = {'sim': pyrtl.Simulation, 'fast': pyrtl.FastSimulation, 'compiled': pyrtl.CompiledSimulation}[c['sim']]
     K = c['K']
     ins = sorted(block.wirevector_subset(pyrtl.Input), key=lambda w: w.name)
-    first = cls(block=block)
+    contents = {m: {0: 1, (1 << m.addrwidth) - 1: 1 if m.bitwidth > 1 else 0} for m in simdrv.mems_of(block).values()
+                if not isinstance(m, pyrtl.RomBlock)} if c.get('shared_map') else {}
+    mvm = {m: dict(d) for m, d in contents.items()}
+    kw = {'memory_value_map': mvm} if c.get('shared_map') else {}
+    first = cls(block=block, **kw)
     for t in range(K + 1):
         first.step({w.name: w.bitmask for w in ins})
-    second = cls(block=block)
-    fresh = pyrtl.Simulation(block=block, register_value_map={}, memory_value_map={})
+    second = cls(block=block, **kw)
+    fresh = pyrtl.Simulation(block=block, register_value_map={}, memory_value_map={m: dict(d) for m, d in contents.items()})
     bad = []
+    for m in simdrv.mems_of(block).values():
+        if isinstance(m, pyrtl.RomBlock) or m.addrwidth > 10:
+            continue
+        view = second.inspect_mem(m)
+        for a in range(1 << m.addrwidth):
+            got = view.get(a, 0) if isinstance(view, dict) else view[a]
+            if got != contents.get(m, {}).get(a, 0):
+                bad.append('before its first step the second simulator holds %s[%d] = %r, it was given %r'
+                           % (m.name, a, got, contents.get(m, {}).get(a, 0)))
     for t in range(K):
         vec = concrete.input_vector(block, mv, t)
         second.step(vec)
